@@ -237,6 +237,7 @@ def run_vecenv(case):
     import numpy as np
 
     prim, twin = build_stack(case), build_stack(case)
+    taps = tap_chain(prim)
     hp, ht = Holder(), Holder()
     problems, sharing = [], []
     try:
@@ -284,7 +285,216 @@ def run_vecenv(case):
         prim.close()
         twin.close()
     live = sorted({(attr, name) for (_, _, attr, name) in sharing if attr not in DEAD_ATTRS})
-    return problems, live, len(case["ops"])
+    facts_bad = compare_facts(MODEL_FACTS, taps) if MODEL_FACTS else []
+    return problems, live, len(case["ops"]), facts_bad
+
+
+
+# ------------------------------------------------------------------ per-level call facts (tie of the component programs)
+
+LEVEL_COMPONENT = {"DummyVecEnv": "dummy", "VecFrameStack": "framestack", "VecNormalize": "vecnorm", "VecTransposeImage": "transpose",
+                   "VecExtractDictObs": "extract", "VecCheckNan": "checknan", "VecMonitor": "vecmonitor"}
+# component -> (reset program, step program, live slots, dead slots) as named in coq/Model/Alias.v
+COMPONENT_PROGRAMS = {
+    "dummy": ("dummy_reset", "dummy_step", 4, 1), "framestack": ("framestack_reset", "framestack_step", 1, 0),
+    "vecnorm": ("vecnorm_reset", "vecnorm_step", 5, 0), "transpose": ("transpose_reset", "transpose_step", 0, 0),
+    "transpose_dict": ("transpose_dict_reset", "transpose_dict_step", 0, 0), "extract": ("extract_reset", "extract_step", 0, 0),
+    "checknan": ("checknan_reset", "checknan_step", 0, 2), "vecmonitor": ("vecmonitor_reset", "vecmonitor_step", 2, 0),
+}
+
+
+def _rms_objs(r):
+    return list(r.values()) if isinstance(r, dict) else ([r] if r is not None else [])
+
+
+def _slot_objects(venv, comp):
+    """the objects each LIVE slot of the component currently refers to (None = slot not observed)"""
+    if comp == "dummy":
+        return [list(venv.buf_obs.values()), [venv.buf_rews], [venv.buf_dones], None]
+    if comp == "framestack":
+        so = venv.stacked_obs
+        subs = getattr(so, "sub_stacked_observations", None)
+        return [[x.stacked_obs for x in subs.values()] if subs else [so.stacked_obs]]
+    if comp == "vecnorm":
+        old = getattr(venv, "old_obs", None)
+        old_l = [a for _, a in _leaves(old)] if old is not None else []
+        oldr = getattr(venv, "old_reward", None)
+        return [old_l, [oldr] if oldr is not None else [], [venv.returns], _rms_objs(getattr(venv, "obs_rms", None)), [venv.ret_rms]]
+    if comp == "vecmonitor":
+        return [[venv.episode_returns], [venv.episode_lengths]]
+    return []
+
+
+def _fp(o):
+    import numpy as np
+
+    if isinstance(o, np.ndarray):
+        return (o.shape, o.tobytes())
+    if hasattr(o, "mean") and hasattr(o, "var"):  # RunningMeanStd
+        return (np.asarray(o.mean).tobytes(), np.asarray(o.var).tobytes(), float(o.count))
+    return repr(o)
+
+
+def _snap(venv, comp):
+    out = []
+    for objs in _slot_objects(venv, comp):
+        out.append(None if objs is None else {"objs": list(objs), "ids": tuple(id(o) for o in objs), "fp": [_fp(o) for o in objs]})
+    return out
+
+
+def _arrays_of(o):
+    import numpy as np
+
+    if isinstance(o, np.ndarray):
+        return [o]
+    if hasattr(o, "mean") and hasattr(o, "var"):
+        return [np.asarray(o.mean), np.asarray(o.var)]
+    return [a for _, a in _leaves(o)]
+
+
+def _related(a, b):
+    """same object, or some array of a shares memory with some array of b"""
+    import numpy as np
+
+    if a is b:
+        return True
+    if isinstance(a, list) and a and isinstance(a[0], dict):  # infos: identity of the list only
+        return False
+    if isinstance(b, list) and b and isinstance(b[0], dict):
+        return False
+    for x in _arrays_of(a):
+        for y in _arrays_of(b):
+            if x.size and y.size and np.shares_memory(x, y):
+                return True
+    return False
+
+
+def _infos_fp(infos):
+    out = []
+    for inf in infos:
+        t = inf.get("terminal_observation") if isinstance(inf, dict) else None
+        out.append((sorted(inf.keys()) if isinstance(inf, dict) else None, [(_p, a.tobytes()) for _p, a in _leaves(t)] if t is not None else None))
+    return repr(out)
+
+
+class LevelTap:
+    """records, for one level of a wrapper chain, what step_wait()/reset() returned and how the level's live attributes changed"""
+
+    def __init__(self, venv, inner_tap):
+        self.venv, self.inner = venv, inner_tap
+        cls = type(venv).__name__
+        self.comp = LEVEL_COMPONENT.get(cls)
+        if self.comp == "transpose" and isinstance(venv.venv.observation_space, __import__("gymnasium").spaces.Dict):
+            self.comp = "transpose_dict"
+        self.last = None
+        self.facts = []  # (op, observed facts)
+        self.actions = None
+        o_step_async, o_step_wait, o_reset = venv.step_async, venv.step_wait, venv.reset
+        tap = self
+
+        def step_async(actions):
+            tap.actions = actions
+            return o_step_async(actions)
+
+        def step_wait():
+            before = _snap(venv, tap.comp)
+            out = o_step_wait()
+            tap._record("step", list(out), before)
+            return out
+
+        def reset():
+            before = _snap(venv, tap.comp)
+            out = o_reset()
+            tap._record("reset", [out], before)
+            return out
+
+        venv.step_async, venv.step_wait, venv.reset = step_async, step_wait, reset
+
+    def _record(self, op, ret, before):
+        import numpy as np
+
+        after = _snap(self.venv, self.comp)
+        inner = self.inner.last["ret"] if (self.inner is not None and self.inner.last is not None and self.inner.last["op"] == op) else []
+        inner = (inner + [None] * 4)[:4]
+        args = [self.actions] if op == "step" else []
+        f = {
+            "ret_slot": [[(sl is not None and any(_related(r, o) for o in sl["objs"])) for sl in after] for r in ret],
+            "ret_arg": [[_related(r, a) for a in args] for r in ret],
+            "ret_inner": [[(c is not None and _related(r, c)) for c in inner] for r in ret],
+            "slot_rebound": [(b is not None and a is not None and b["ids"] != a["ids"]) for b, a in zip(before, after)],
+            "slot_inner": [[(a is not None and c is not None and any(_related(o, c) for o in a["objs"])) for c in inner] for a in after],
+            "slot_arg": [[(a is not None and any(_related(o, x) for o in a["objs"])) for x in args] for a in after],
+            "slot_written": [(b is not None and [_fp(o) for o in b["objs"]] != b["fp"]) for b in before],
+            "inner_written": [False] * 4,
+            "observed_slots": [b is not None for b in before],
+        }
+        if self.inner is not None and self.inner.last is not None and self.inner.last["op"] == op:
+            fps = self.inner.last["fp_ret"]
+            cur = self._fp_ret(self.inner.last["ret"])
+            f["inner_written"] = [(i < len(fps) and fps[i] != cur[i]) for i in range(4)]
+        self.last = {"op": op, "ret": ret, "fp_ret": self._fp_ret(ret)}
+        self.facts.append((op, f))
+
+    @staticmethod
+    def _fp_ret(ret):
+        out = []
+        for r in ret:
+            if isinstance(r, list) and (not r or isinstance(r[0], dict)):
+                out.append(_infos_fp(r))
+            else:
+                out.append(repr([(p, a.shape, a.tobytes()) for p, a in _leaves(r)]))
+        return out
+
+
+def tap_chain(venv):
+    chain = _chain(venv)[::-1]  # innermost first
+    taps, prev = [], None
+    for lvl in chain:
+        prev = LevelTap(lvl, prev)
+        taps.append(prev)
+    return taps
+
+
+def compare_facts(model_facts, taps):
+    """model_facts: {program name: tuple of the 8 fact lists}.  Returns disagreements."""
+    bad = []
+    for tap in taps:
+        if tap.comp is None:
+            continue
+        rp, sp, nlive, ndead = COMPONENT_PROGRAMS[tap.comp]
+        for k, (op, f) in enumerate(tap.facts):
+            m = model_facts[rp if op == "reset" else sp]
+            m_ret_slot, m_ret_arg, m_ret_inner, m_rebound, m_slot_inner, m_slot_arg, m_written, m_inner_written = m
+            who = f"{type(tap.venv).__name__}.{op} (call {k})"
+            if len(f["ret_slot"]) != len(m_ret_slot):
+                bad.append(f"{who}: {len(f['ret_slot'])} returned components, model program returns {len(m_ret_slot)}")
+                continue
+            for j in range(len(m_ret_slot)):
+                for s_i in range(len(m_ret_slot[j])):
+                    if f["observed_slots"][s_i] and f["ret_slot"][j][s_i] != m_ret_slot[j][s_i]:
+                        bad.append(f"{who}: returned component {j} shares memory with live slot {s_i}: observed {f['ret_slot'][j][s_i]}, model {m_ret_slot[j][s_i]}")
+                if f["ret_arg"][j] != m_ret_arg[j]:
+                    bad.append(f"{who}: returned component {j} vs arguments: observed {f['ret_arg'][j]}, model {m_ret_arg[j]}")
+                if tap.inner is not None and f["ret_inner"][j] != m_ret_inner[j]:
+                    bad.append(f"{who}: returned component {j} vs inner results: observed {f['ret_inner'][j]}, model {m_ret_inner[j]}")
+            for s_i in range(len(m_rebound)):
+                if not f["observed_slots"][s_i]:
+                    continue
+                if f["slot_rebound"][s_i] and not m_rebound[s_i]:
+                    bad.append(f"{who}: live slot {s_i} was rebound to another object, the model program keeps it")
+                if f["slot_written"][s_i] and not m_written[s_i]:
+                    bad.append(f"{who}: the object of live slot {s_i} was modified in place, the model program does not write it")
+                if f["slot_rebound"][s_i] and m_rebound[s_i]:
+                    if tap.inner is not None and f["slot_inner"][s_i] != m_slot_inner[s_i]:
+                        bad.append(f"{who}: live slot {s_i} after the call vs inner results: observed {f['slot_inner'][s_i]}, model {m_slot_inner[s_i]}")
+                if f["slot_arg"][s_i] != m_slot_arg[s_i]:
+                    bad.append(f"{who}: live slot {s_i} vs arguments: observed {f['slot_arg'][s_i]}, model {m_slot_arg[s_i]}")
+            for c in range(4):
+                if f["inner_written"][c] and not m_inner_written[c]:
+                    bad.append(f"{who}: inner result component {c} was modified in place, the model program does not write it")
+            if bad:
+                return bad[:6]
+    return bad
 
 
 # ------------------------------------------------------------------ buffers
@@ -540,6 +750,8 @@ def run_predict(case):
     return problems, live, 2
 
 
+MODEL_FACTS = {}  # filled from Coq by main() before the worker pool starts (inherited by fork)
+
 RUNNERS = {"vecenv": run_vecenv, "buffer": run_buffer, "predict": run_predict}
 GENS = [("vecenv", gen_stack, 0.55), ("buffer", gen_buffer, 0.33), ("predict", gen_predict, 0.12)]
 
@@ -554,17 +766,30 @@ def model_sharing():
             "pinned_programs_disciplined": list(vals[2])}
 
 
+def model_call_facts():
+    """per-program facts of coq/Model/Alias.v (call_facts), one Coq evaluation"""
+    names, exprs = [], []
+    for comp, (rp, sp, nlive, ndead) in COMPONENT_PROGRAMS.items():
+        for prog, nargs in ((rp, 0), (sp, 1)):
+            names.append(prog)
+            exprs.append(f"let f := call_facts {prog} {nargs} {nlive} {ndead} in (f_ret_slot f, f_ret_arg f, f_ret_inner f, f_slot_rebound f, "
+                         f"f_slot_inner f, f_slot_arg f, f_slot_written f, f_inner_written f)")
+    vals = common.coq_eval_many("C19_facts", HEADER, exprs, shard=40, procs=1)
+    return {n: v for n, v in zip(names, vals)}
+
+
 def _run_case(case):
     import torch as th
 
     th.set_num_threads(1)
     try:
-        problems, live, nops = RUNNERS[case["what"]](case)
-        return {"problems": problems, "live": live, "nops": nops}
+        out = RUNNERS[case["what"]](case)
+        problems, live, nops = out[:3]
+        return {"problems": problems, "live": live, "nops": nops, "facts_bad": out[3] if len(out) > 3 else []}
     except Exception as e:  # a crash of the implementation on a legal call sequence is reported, not hidden
         import traceback
 
-        return {"problems": [("harness-exception", f"{type(e).__name__}: {e}\n{traceback.format_exc()[-800:]}")], "live": [], "nops": 0}
+        return {"problems": [("harness-exception", f"{type(e).__name__}: {e}\n{traceback.format_exc()[-800:]}")], "live": [], "nops": 0, "facts_bad": []}
 
 
 def main():
@@ -574,6 +799,8 @@ def main():
     chk.build_props()
     ms = model_sharing()
     chk.notes["model"] = ms
+    MODEL_FACTS.update(model_call_facts())
+    chk.notes["model_programs_compared"] = sorted(MODEL_FACTS)
     if not ms["all_disciplined"]:
         chk.violation("model-program-undisciplined", "a component program of Model/Alias.v no longer passes the discipline checker", {"model": ms}, found_input=False)
     n_cases = 260 if chk.tier == "quick" else 3000
@@ -605,6 +832,11 @@ def main():
         if res["problems"]:
             sig, msg = res["problems"][0]
             chk.violation(sig.replace("oracle-", "") + "-" + key.replace(":", "-"), msg, {"case": c, "problems": res["problems"], "live_sharing": res["live"]}, found_input=True)
+        elif res.get("facts_bad"):
+            chk.violation("component-program-" + key.replace(":", "-"),
+                          "the implementation's aliasing behaviour differs from the component program of Model/Alias.v: " + "; ".join(res["facts_bad"][:3]),
+                          {"case": c, "disagreements": res["facts_bad"], "correspondence": "per-call facts (identity / shares_memory / rebound / written in place) vs Model.Alias.call_facts"},
+                          found_input=False)
         elif res["live"] and not ms["any_ret_shares_live_slot"]:
             chk.violation("alias-graph-" + key.replace(":", "-"),
                           f"objects held by the caller share memory with live internal state {res['live'][:3]} but the model says no returned/passed object is retained",
